@@ -5,6 +5,9 @@
 #include "../shims/tp_abi.h"
 #include <cerrno>
 #include <sys/epoll.h>
+#include <sys/wait.h>
+#include <csignal>
+#include <memory>
 
 using namespace pbt;
 
@@ -418,6 +421,194 @@ static rc::Gen<FireCase> genFire() {
   });
 }
 
+// ---------------------------------------------------------------- (c) process events
+struct Fault { int fn = 0, k = 0, err = 0; };
+struct PCmd { int cmd = 0, ch = 0, outside = 0, flags = 0, fflags = 0, arg = 0; };
+struct ProcCase {
+  int nch = 1;
+  int code[3] = {0, 0, 0}, by_signal[3] = {0, 0, 0};
+  std::vector<PCmd> cmds;
+  std::vector<Fault> faults;
+  std::string ser() const {
+    Writer w;
+    w.i("nch", nch).iv("code", {code[0], code[1], code[2]}).iv("by_signal", {by_signal[0], by_signal[1], by_signal[2]}).i("ncmds", (long long)cmds.size());
+    for (size_t i = 0; i < cmds.size(); i++) w.iv(("c" + std::to_string(i)).c_str(), {cmds[i].cmd, cmds[i].ch, cmds[i].outside, cmds[i].flags, cmds[i].fflags, cmds[i].arg});
+    std::vector<long long> f;
+    for (auto &x : faults) { f.push_back(x.fn); f.push_back(x.k); f.push_back(x.err); }
+    w.iv("faults", f);
+    return w.str();
+  }
+  static ProcCase parse(const std::string &t) {
+    Reader r(t);
+    ProcCase c;
+    c.nch = (int)r.i("nch", 1);
+    auto k = r.iv("code"), b = r.iv("by_signal");
+    k.resize(3, 0); b.resize(3, 0);
+    for (int i = 0; i < 3; i++) { c.code[i] = (int)k[i]; c.by_signal[i] = (int)b[i]; }
+    int n = (int)r.i("ncmds");
+    for (int i = 0; i < n; i++) {
+      auto v = r.iv(("c" + std::to_string(i)).c_str());
+      v.resize(6, 0);
+      PCmd cm; cm.cmd = (int)v[0]; cm.ch = (int)v[1]; cm.outside = (int)v[2]; cm.flags = (int)v[3]; cm.fflags = (int)v[4]; cm.arg = (int)v[5];
+      c.cmds.push_back(cm);
+    }
+    auto f = r.iv("faults");
+    for (size_t i = 0; i + 2 < f.size(); i += 3) c.faults.push_back(Fault{(int)f[i], (int)f[i + 1], (int)f[i + 2]});
+    return c;
+  }
+};
+void showValue(const ProcCase &c, std::ostream &os) { os << c.ser(); }
+
+static const char *pcmdname(int c) {
+  static const char *n[] = {"?", "add", "enable", "disable", "del", "child_exit", "sleep"};
+  return (c >= 0 && c <= 6) ? n[c] : "?";
+}
+
+static Verdict run_proc(const ProcCase &c) {
+  c06c_case k;
+  memset(&k, 0, sizeof k);
+  int nch = std::max(1, std::min(c.nch, (int)C06C_MAX_CH));
+  k.nch = (uint8_t)nch;
+  for (int i = 0; i < C06C_MAX_CH; i++) { k.exit_code[i] = (uint8_t)c.code[i]; k.by_signal[i] = (uint8_t)(c.by_signal[i] != 0); }
+  k.ncmds = (uint8_t)std::min<size_t>(c.cmds.size(), C06C_MAX_CMDS);
+  k.plans.nfaults = (uint32_t)std::min<size_t>(c.faults.size(), TP_FAULT_MAX);
+  for (uint32_t i = 0; i < k.plans.nfaults; i++) { k.plans.faults[i].fn = (uint8_t)c.faults[i].fn; k.plans.faults[i].k = (uint32_t)c.faults[i].k; k.plans.faults[i].err = c.faults[i].err; }
+  // model: what every step must return and whether the channel's callback is due
+  struct M { bool tpt_set = false, reg = false, dead = false, reaped = false; } m[C06C_MAX_CH];
+  enum RcClass { RC_NA, RC_OK, RC_EXACT, RC_NONZERO };
+  struct Exp { RcClass cls = RC_NA; int rc = 0; int fires = 0; bool strong = false; const char *why = ""; };
+  std::vector<Exp> ex(k.ncmds);
+  int epoll_calls = 0, opens = 0;
+  for (int i = 0; i < k.ncmds; i++) {
+    const PCmd &cm = c.cmds[i];
+    int ch = cm.ch % C06C_MAX_CH;
+    k.cmds[i].cmd = (uint8_t)cm.cmd; k.cmds[i].ch = (uint8_t)ch; k.cmds[i].outside = (uint8_t)cm.outside;
+    k.cmds[i].flags = (uint16_t)cm.flags; k.cmds[i].fflags = (uint32_t)cm.fflags; k.cmds[i].arg = (uint8_t)cm.arg;
+    if (ch >= nch) continue;
+    Exp &e = ex[i];
+    bool bad = (cm.flags & ~0x000f) || ((cm.flags & 3) == 3) || (cm.flags & 0x000c) || (cm.fflags & ~1);
+    switch (cm.cmd) {
+    case P_ADD: case P_ENABLE:
+      if (cm.cmd == P_ADD) m[ch].tpt_set = true;
+      if (!m[ch].tpt_set) { e.cls = RC_EXACT; e.rc = EINVAL; e.why = "enable before the first add has no thread binding"; break; }
+      if (bad) { e.cls = RC_NONZERO; e.why = "malformed registration"; break; }
+      if (m[ch].reg) { e.cls = RC_EXACT; e.rc = EEXIST; e.why = "already registered"; break; }
+      if (m[ch].reaped) { e.cls = RC_EXACT; e.rc = ESRCH; e.why = "the process is gone and reaped"; break; }
+      opens++;
+      epoll_calls++;
+      {
+        int inj = 0;
+        for (auto &f : c.faults) if (f.fn == F_EPOLL_CTL && f.k == epoll_calls) inj = f.err;
+        if (inj) { e.cls = RC_EXACT; e.rc = inj; e.why = "epoll_ctl failure injected"; label("proc_fault_injected"); break; }
+      }
+      e.cls = RC_OK;
+      m[ch].reg = true;
+      if (m[ch].dead) { e.fires = 1; m[ch].reg = false; m[ch].reaped = true; }
+      break;
+    case P_DISABLE: case P_DEL:
+      if (!m[ch].tpt_set) { e.cls = RC_EXACT; e.rc = EINVAL; e.why = "no thread binding yet"; break; }
+      if (!m[ch].reg) { e.cls = RC_EXACT; e.rc = ENOENT; e.why = "nothing registered"; break; }
+      e.cls = RC_OK; e.strong = true;
+      m[ch].reg = false;
+      break;
+    case P_EXIT:
+      if (!m[ch].dead) {
+        m[ch].dead = true;
+        if (m[ch].reg) { e.fires = 1; m[ch].reg = false; m[ch].reaped = true; }
+      }
+      break;
+    default: break;
+    }
+    k.cmds[i].await = (uint8_t)(e.fires > 0);
+  }
+  Verdict v = Verdict::pass();
+  for (int attempt = 0; attempt < 3; attempt++) {
+    std::unique_ptr<c06c_out> op(new c06c_out());
+    c06c_out &o = *op;
+    alarm(300);
+    c06c_run(&k, &o);
+    alarm(0);
+    PBT_REQUIRE(o.setup_rc == 0, "harness: setup failed " << o.setup_rc);
+    if (o.never_fired_step >= 0) {
+      const PCmd &cm = c.cmds[o.never_fired_step];
+      std::ostringstream m2;
+      m2 << "step " << o.never_fired_step << " (" << pcmdname(cm.cmd) << " ch " << cm.ch % C06C_MAX_CH << "): the registered process event never fired although the process has exited";
+      v = Verdict::fail(m2.str());
+      label("never_fired_rerun");
+      continue;  // reported only if it happens in 3 of 3 runs
+    }
+    if (o.hang) { v = Verdict::fail("hang: the owning thread stopped serving its queue"); label("hang_rerun"); continue; }
+    uint32_t prev[C06C_MAX_CH] = {0, 0, 0};
+    int nreg = 0, fired_total = 0;
+    bool nt = false;
+    for (int i = 0; i < k.ncmds; i++) {
+      const PCmd &cm = c.cmds[i];
+      int ch = cm.ch % C06C_MAX_CH;
+      if (ch >= nch) continue;
+      const c06c_step &s = o.s[i];
+      const Exp &e = ex[i];
+      std::ostringstream tg;
+      tg << "step " << i << " (" << pcmdname(cm.cmd) << " ch " << ch << " flags " << cm.flags << " fflags " << cm.fflags << (cm.outside ? " outside" : " in-thread") << ")";
+      std::string tag = tg.str();
+      switch (e.cls) {
+      case RC_OK: PBT_REQUIRE(s.rc == 0, tag << ": returned " << s.rc << ", expected success"); break;
+      case RC_EXACT: PBT_REQUIRE(s.rc == e.rc, tag << ": returned " << s.rc << ", expected " << e.rc << " (" << e.why << ")"); break;
+      case RC_NONZERO: PBT_REQUIRE(s.rc != 0, tag << ": accepted (" << e.why << ")"); label("proc_malformed_refused"); break;
+      default: break;
+      }
+      if (e.cls == RC_OK && (cm.cmd == P_ADD || cm.cmd == P_ENABLE)) nreg++;
+      if (e.cls == RC_OK && (cm.cmd == P_DISABLE || cm.cmd == P_DEL)) { nreg--; label("proc_removed_while_armed"); nt = true; }
+      if (e.fires) { nreg--; fired_total++; }
+      for (int j = 0; j < nch; j++) {
+        uint32_t want = prev[j] + ((j == ch) ? (uint32_t)e.fires : 0u);
+        PBT_REQUIRE(s.fired_late[j] == want, tag << ", process " << j << ": callback count " << s.fired_late[j] << " (at return " << s.fired_at_ret[j] << ", settled " << s.fired_after[j]
+                                                 << "), expected " << want << (e.fires && j == ch ? " (exactly one report of the exit)" : " (nothing may fire)"));
+        if (e.strong && j == ch) PBT_REQUIRE(s.fired_late[j] == s.fired_at_ret[j], tag << ": fired after disable/delete returned");
+        PBT_REQUIRE(!o.wrong_thread[j], tag << ": callback ran on a thread other than the owner");
+        prev[j] = s.fired_late[j];
+      }
+      if (e.fires) PBT_REQUIRE(s.tpdata[ch] == 0, tag << ": the user record still carries registration state after the one report (tpdata " << std::hex << s.tpdata[ch] << ")");
+      PBT_REQUIRE(s.live_fds == o.base_live_fds + (uint32_t)nreg, tag << ": " << s.live_fds - o.base_live_fds << " process descriptor(s) open, " << nreg << " registration(s) alive");
+    }
+    for (int j = 0; j < nch; j++) {
+      if (prev[j] == 0) continue;
+      PBT_REQUIRE(o.last_event[j] == EV_PROC, "process " << j << ": callback carried event kind " << o.last_event[j]);
+      PBT_REQUIRE(o.last_fflags[j] == 1u, "process " << j << ": callback filter flags " << o.last_fflags[j] << ", expected TP_FF_P_EXIT");
+      int st = (int)o.last_data[j];
+      if (c.by_signal[j]) PBT_REQUIRE(WIFSIGNALED(st) && WTERMSIG(st) == SIGKILL, "process " << j << " was killed by SIGKILL, callback data (wait status) is " << st);
+      else PBT_REQUIRE(WIFEXITED(st) && WEXITSTATUS(st) == (c.code[j] & 0xff), "process " << j << " exited with " << (c.code[j] & 0xff) << ", callback data (wait status) is " << st);
+      label(c.by_signal[j] ? "proc_killed_reported" : "proc_exit_reported");
+    }
+    PBT_REQUIRE(o.pidfd_opens == (uint32_t)opens, "process descriptors opened: " << o.pidfd_opens << ", the history needs " << opens);
+    PBT_REQUIRE(o.res.live_fds == o.pre_live_fds, "descriptors left after deleting every registration and destroying the pool: " << o.res.live_fds << " (before: " << o.pre_live_fds << ")");
+    if (fired_total) nt = true;
+    if (nt) nontrivial_cur();
+    return Verdict::pass();
+  }
+  return v;
+}
+
+static rc::Gen<ProcCase> genProc() {
+  return rc::gen::exec([]() {
+    ProcCase c;
+    c.nch = *rc::gen::weightedElement<int>({{3, 1}, {2, 2}, {1, 3}});
+    for (int i = 0; i < 3; i++) { c.code[i] = *rc::gen::element(0, 1, 7, 42, 255); c.by_signal[i] = *rc::gen::weightedElement<int>({{4, 0}, {1, 1}}); }
+    int n = *range<int>(2, 9);
+    for (int i = 0; i < n; i++) {
+      PCmd cm;
+      cm.ch = *range<int>(0, c.nch - 1);
+      cm.cmd = *rc::gen::weightedElement<int>({{5, (int)P_ADD}, {2, (int)P_ENABLE}, {2, (int)P_DISABLE}, {2, (int)P_DEL}, {4, (int)P_EXIT}, {1, (int)P_SLEEP}});
+      cm.outside = *rc::gen::weightedElement<int>({{3, 0}, {1, 1}});
+      cm.flags = *rc::gen::weightedElement<int>({{4, 0}, {2, (int)F_ONESHOT}, {2, (int)F_DISPATCH}, {1, 3}, {1, 0x10}});
+      cm.fflags = *rc::gen::weightedElement<int>({{4, 0}, {3, 1}, {1, 2}});
+      cm.arg = *range<int>(1, 10);
+      c.cmds.push_back(cm);
+    }
+    if (*range<int>(0, 7) == 0) c.faults.push_back(Fault{F_EPOLL_CTL, *range<int>(1, 3), *rc::gen::element<int>(ENOMEM, ENOSPC)});
+    return c;
+  });
+}
+
 // unit boundaries enumerated for every unit x one-shot/periodic x relative/absolute (part (a), exhaustive over the listed values)
 static void unit_table(double) {
   set_exhaustive(true);
@@ -440,6 +631,7 @@ int main(int argc, char **argv) {
   add_check<ProgCase>("ev_program", 60000, 100, genProg, run_prog);
   add_enum_check("ev_timer_unit_table", 100, unit_table, [](const std::string &t) { return run_prog(ProgCase::parse(t)); });
   add_check<FireCase>("ev_fire", 160, 100, genFire, run_fire);
+  add_check<ProcCase>("ev_proc", 250, 100, genProc, run_proc);
   disable_shrinking("ev_fire");  // a failing history costs up to 3 x ceiling to re-run; histories are short (<= 14 commands)
   return driver_main(argc, argv);
 }
